@@ -207,7 +207,14 @@ func (s *splice) String() string {
 
 func (s *splice) eval(cfg *Config, opts *options) (string, error) {
 	buf := bytes.NewBuffer(nil)
+
+	// every piece is evaluated in a scope of its own, so that the same
+	// variable can be used several times in one string
+	parentFields := opts.activeFields
+	defer func() { opts.activeFields = parentFields }()
+
 	for _, p := range s.pieces {
+		opts.activeFields = newFieldSet(parentFields)
 		s, err := p.eval(cfg, opts)
 		if err != nil {
 			return "", err
